@@ -18,7 +18,7 @@ HOOKS = {
 
 ENGINES = [
     {'name': 'vf', 'path': 'vf/harness.py',
-     'serves_properties': ['C07', 'C20'],
+     'serves_properties': ['C07', 'C13', 'C20'],
      'kind_free_text': ('runtime monitoring driver: 16 worker processes import the real '
                         'openhtf from /repo, run enumerated + seeded cases, monitors '
                         'decide each property from observed events; witnesses are '
@@ -54,5 +54,19 @@ CHECKS = {
                  'metadata[\'config\'] snapshot of a real Test run is compared with item reads'),
         'note': ('trusts the 60-line reference model in vf/props/c20.py; key universe of four valid '
                  'lower-case keys; flags injected through load_flag_values(Namespace)'),
+    },
+    'C13': {
+        'level': 'fault_enumeration',
+        'technique': 'runtime monitoring with fault injection: recording fake USB transport, exhaustive single-field/bit/truncation corruption of frames, sys.monitoring pause-point schedules of two writers/readers, yield-injection stress',
+        'text': ('all 7 commands x edge arguments x payload sizes {0,1,2,maxdata-1,maxdata} are written through '
+                 'the real AdbTransportAdapter into a recording transport and compared with an independently '
+                 'packed header, then read back; every single-field replacement, each of the 192 header bit '
+                 'flips, every header truncation 0..23 and payload truncation/extension/byte change of several '
+                 'frames must be rejected unless the corrupted frame is still self-consistent; a writer/reader '
+                 'is paused at every reached line of write_message/read_message while a second one performs a '
+                 'full call (chunk log / returned messages must not interleave); time-outs expiring between '
+                 'header and payload must still move the payload'),
+        'note': ('preemption bound 1 over the lines reached, plus seeded yield injection; payloads are latin-1 str; '
+                 'trusts the fake transport in vf/props/c13.py'),
     },
 }
